@@ -493,6 +493,8 @@ def explore(stmts, atoms, names=(), upto=None, max_paths=20000, exceptions=False
                 if not label.startswith('exc:') and not all(kl):
                     return None         # a lookup of the statement is known to fail: the statement does not complete
         if label.startswith('exc:'):
+            if node.kind == 'stmt' and isinstance(node.ast, ast.Raise):
+                return (cenv, env, calls, node.ast, stores)         # an explicit raise is the terminating statement of the path
             return state
         if node.kind == 'test' and label in ('true', 'false') and isinstance(node.ast, (ast.If, ast.While)):
             v = eval3(node.ast.test, cenv, atoms)
@@ -914,3 +916,119 @@ def unevaluated_returns(outs):
     """outcomes of a decision procedure whose returned value could not be evaluated on the abstract case (it is reported by its source text):
     the procedure is then not decided - never "differs from the specification" """
     return [v for k, v in outs if k == 'return' and isinstance(v, str)]
+
+
+ONE_SHOT_BUILTINS = {'zip', 'map', 'filter', 'iter', 'reversed', 'enumerate'}
+CONSUMERS = {'list', 'tuple', 'set', 'frozenset', 'dict', 'sorted', 'sum', 'min', 'max', 'any', 'all', 'Counter', 'join', 'fromiter', 'array', 'extend', 'update',
+             'zip', 'map', 'filter', 'enumerate', 'chain', 'from_iterable'}
+
+
+def one_shot_reuse(fdef, generator_functions=()):
+    """Single-pass iterators consumed more than once.  A local bound exactly once to a generator expression, to zip / map / filter / iter /
+    reversed / enumerate / an itertools call, or to a call of a known generator function is exhausted by its first full consumption; a second
+    consumption (another loop, ''.join, list, sorted, ...) that can follow the first in the same activation, or a single consumption inside a
+    loop that does not contain the binding, silently sees nothing.  Locals that are advanced by hand (`next(x)`) or handed to unknown
+    functions are left alone.  Returns [(name, binding statement, first site, second site or enclosing loop, text)]."""
+    params = {a.arg for a in fdef.args.args + fdef.args.kwonlyargs + fdef.args.posonlyargs} | {x.arg for x in (fdef.args.vararg, fdef.args.kwarg) if x}
+    parent = {}
+    for p_ in ast.walk(fdef):
+        for c_ in ast.iter_child_nodes(p_):
+            parent[c_] = p_
+    binds = {}
+    for a in walk_no_nested(fdef):
+        if isinstance(a, (ast.Assign, ast.AugAssign, ast.AnnAssign, ast.For, ast.With, ast.NamedExpr)) or isinstance(a, ast.comprehension):
+            tgts = a.targets if isinstance(a, ast.Assign) else [a.target] if hasattr(a, 'target') else [i.optional_vars for i in a.items if i.optional_vars is not None] if isinstance(a, ast.With) else []
+            for t in tgts:
+                for n in ast.walk(t):
+                    if isinstance(n, ast.Name):
+                        binds.setdefault(n.id, []).append(a)
+
+    def one_shot(v):
+        if isinstance(v, ast.GeneratorExp):
+            return 'a generator expression'
+        if isinstance(v, ast.Call):
+            d = dotted(v.func) or ''
+            ln = d.split('.')[-1]
+            if d in ONE_SHOT_BUILTINS:
+                return f'{d}(..)'
+            if d.startswith('itertools.') and ln not in ('tee',):
+                return f'{d}(..)'
+            if ln in generator_functions and (d == ln or d == 'self.' + ln):
+                return f'the generator {ln}(..)'
+        return None
+    out = []
+    for name, bs in binds.items():
+        if len(bs) != 1 or name in params or not isinstance(bs[0], ast.Assign) or len(bs[0].targets) != 1 or not isinstance(bs[0].targets[0], ast.Name):
+            continue
+        kind = one_shot(bs[0].value)
+        if kind is None:
+            continue
+        uses = [n for n in walk_no_nested(fdef) if isinstance(n, ast.Name) and n.id == name and isinstance(n.ctx, ast.Load)]
+        sites, skip = [], False
+        for u in uses:
+            p_ = parent.get(u)
+            if isinstance(p_, ast.Starred):
+                p_ = parent.get(p_)
+            if isinstance(p_, ast.For) and p_.iter is u:
+                sites.append((u, p_))
+            elif isinstance(p_, ast.comprehension) and p_.iter is u:
+                sites.append((u, p_))
+            elif isinstance(p_, ast.YieldFrom):
+                sites.append((u, p_))
+            elif isinstance(p_, ast.Call):
+                ln = (dotted(p_.func) or '').split('.')[-1] if not (isinstance(p_.func, ast.Attribute) and p_.func.attr == 'join') else 'join'
+                if ln == 'next':
+                    skip = True
+                elif ln in CONSUMERS and u is not p_.func:
+                    sites.append((u, p_))
+                else:
+                    skip = True         # escapes into code not analysed here
+            elif isinstance(p_, (ast.Return, ast.Yield)):
+                skip = True             # handed to the caller: consumed there
+            else:
+                skip = True
+        if skip or not sites:
+            continue
+
+        def chain(n):
+            c = []
+            while n in parent:
+                par = parent[n]
+                if isinstance(par, ast.If):
+                    c.append((id(par), 'body' if any(n is x for x in par.body) else 'orelse' if any(n is x for x in par.orelse) else 'test'))
+                elif isinstance(par, ast.Try):
+                    c.append((id(par), 'handler' if isinstance(n, ast.ExceptHandler) else 'body'))
+                n = par
+            return c
+
+        def loops_around(n):
+            ls = []
+            while n in parent:
+                par = parent[n]
+                if isinstance(par, (ast.For, ast.While)) and not (isinstance(par, ast.For) and par.iter is n) and not any(n is x for x in par.orelse):
+                    ls.append(par)
+                n = par
+            return ls
+        bind_loops = {id(l) for l in loops_around(bs[0])}
+        done = False
+        for u, s in sites:
+            extra = [l for l in loops_around(u) if id(l) not in bind_loops]
+            if extra:
+                out.append((name, bs[0], s, extra[-1], f'`{name}` is {kind} created once (line {int(bs[0].lineno)}) but consumed inside the loop at line {int(extra[-1].lineno)}: '
+                            f'from the second iteration on it is exhausted and yields nothing'))
+                done = True
+                break
+        if done:
+            continue
+        for i in range(len(sites)):
+            for j in range(i + 1, len(sites)):
+                ci, cj = dict(chain(sites[i][0])), dict(chain(sites[j][0]))
+                if any(k in cj and cj[k] != v and 'test' not in (v, cj[k]) for k, v in ci.items()):
+                    continue        # different arms of one if / try
+                out.append((name, bs[0], sites[i][1], sites[j][1], f'`{name}` is {kind}: it is consumed at line {int(sites[i][0].lineno)} and again at line {int(sites[j][0].lineno)} - '
+                            f'the second consumer sees an exhausted iterator (nothing)'))
+                done = True
+                break
+            if done:
+                break
+    return out
